@@ -58,21 +58,21 @@ Proof. intros l ls H. apply existsb_exists. exists l. split; [assumption|apply l
 Lemma same4_b : forall l l', same4 l l' -> same4b l' l = true.
 Proof. intros l l' [a [b [c d]]]. unfold same4b. rewrite a, b, c, d, !String.eqb_refl, Z.eqb_refl. reflexivity. Qed.
 
-Lemma cmd_at_c09 : forall t c, cmd_at t c -> c09_cmd t c = true.
-Proof. intros t c H. destruct c; cbn in *; try reflexivity; subst; apply Z.eqb_refl. Qed.
+Lemma cmd_at_c09 : forall d t c, cmd_at d t c -> c09_cmd t c = true.
+Proof. intros d t c H. destruct c; cbn in *; try reflexivity; subst; apply Z.eqb_refl. Qed.
 
-Lemma sub_at_c09 : forall t s, sub_at t s -> c09_sub t s = true.
+Lemma sub_at_c09 : forall d t s, sub_at d t s -> c09_sub t s = true.
 Proof.
-  intros t s H. destruct s; cbn in *; try reflexivity. apply forallb_forall. intros c Hc.
-  apply cmd_at_c09. eapply Forall_forall; eassumption.
+  intros d t s H. destruct s; cbn in *; try reflexivity. apply forallb_forall. intros c Hc.
+  eapply cmd_at_c09. eapply Forall_forall; eassumption.
 Qed.
 
-Lemma cmd_at_time_ok : forall t now c, t <= now -> cmd_at t c -> cmd_time_ok now c.
-Proof. intros t now c Hle H. destruct c; cbn in *; try exact I. lia. Qed.
+Lemma cmd_at_time_ok : forall d t now c, t <= now -> cmd_at d t c -> cmd_time_ok now c.
+Proof. intros d t now c Hle H. destruct c; cbn in *; try exact I. lia. Qed.
 
 Lemma c09_exec_ok : forall now txns d d',
     locks_uniq d -> exec_cmds d (flat_batch txns) = Some d' ->
-    Forall (fun x => exists t, t <= now /\ Forall (cmd_at t) (fst x)) txns ->
+    Forall (fun x => exists t, t <= now /\ Forall (cmd_at d t) (fst x)) txns ->
     c09_exec now d (List.concat (map fst txns)) d' = [].
 Proof.
   intros now txns d d' U H Ht. rewrite <- flat_batch_fst.
@@ -122,47 +122,38 @@ Lemma flat_map_nil : forall {A B} (f : A -> list B) l, (forall x, In x l -> f x 
 Proof. induction l as [|x l IH]; intros H; cbn; [reflexivity|]. rewrite H by (left; reflexivity). apply IH. intros; apply H; right; assumption. Qed.
 
 Lemma c09_step : forall cfg s d s' ob,
-    Inv09 s -> step cfg s d = Some (s', ob) -> Inv09 s' /\ c09_chk (s_now s) (s_db s) d ob = [].
+    Inv09 s -> dir_wf d -> step cfg s d = Some (s', ob) -> Inv09 s' /\ c09_chk (s_now s) (s_db s) d ob = [].
 Proof.
-  intros cfg s d s' ob [HS HU] H. pose proof (SInv_step cfg s d s' ob HS H) as HS'.
+  intros cfg s d s' ob [HS HU] Hwf H. pose proof (SInv_step cfg s d s' ob HS Hwf H) as HS'.
   destruct d.
   - (* tick *)
-    destruct (tick_obs cfg s t deliver bgs arrive s' ob H) as [Hle Hob].
-    split.
-    + split; [exact HS'|]. pose proof (step_db cfg s _ s' ob H) as Hdb. rewrite Hdb.
-      rewrite last_snap_no_exec; [exact HU|]. intros o Ho. eapply Forall_forall in Hob; [|exact Ho].
-      destruct Hob as [out [_ [id Hx]]]. subst. exact I.
-    + cbn. apply flat_map_nil. intros x Hx. eapply Forall_forall in Hob; [|exact Hx].
-      destruct Hob as [out [Hout [id Hxe]]]. subst.
-      destruct (tick_out_ok cfg s t out HS Hout) as [Hsubs _].
-      assert (forallb (c09_sub t) (o_subs out) = true) as ->; [|reflexivity].
-      apply forallb_forall. intros sb Hsb. apply sub_at_c09. eapply Forall_forall; eassumption.
+    destruct (tick_obs_ok cfg s t deliver bgs arrive s' ob HS Hwf H) as [Hle [Hdb Hob]].
+    split; [split; [exact HS'|rewrite Hdb; exact HU]|].
+    cbn. apply flat_map_nil. intros x Hx. eapply Forall_forall in Hob; [|exact Hx].
+    destruct Hob as [id [out [next [-> [Hsubs _]]]]].
+    assert (forallb (c09_sub t) (o_subs out) = true) as ->; [|reflexivity].
+    apply forallb_forall. intros sb Hsb. eapply sub_at_c09. eapply Forall_forall; eassumption.
   - (* exec *)
-    cbn in H. destruct (batch_txns batch (s_pend s)) as [txns|] eqn:Eb; [|discriminate].
-    destruct (negb (nodup_items batch)); [discriminate|].
-    destruct (c_fifo cfg && negb (fifo_ok batch (s_pend s))); [discriminate|].
-    pose proof (batch_txns_ok (s_now s) batch (s_pend s) txns (proj1 HS) Eb) as Ht.
-    destruct (exec_batch (s_db s) txns) as [[d' rss]|] eqn:Ee; inversion H; subst; clear H; cbn.
+    destruct (exec_obs cfg s batch s' ob HS H) as [txns [Ht [[rss [Ee ->]]|[Ee [Hdb ->]]]]]; cbn; rewrite app_nil_r.
     + pose proof (exec_batch_cmds _ _ _ _ Ee) as Hc. split.
-      * split; [exact HS'|]. cbn. eapply exec_cmds_uniq; eassumption.
-      * rewrite app_nil_r. apply c09_exec_ok; assumption.
-    + split; [split; [exact HS'|exact HU]|]. rewrite app_nil_r. apply c09_exec_same; exact HU.
-  - split; [|reflexivity]. split; [exact HS'|]. rewrite (step_db cfg s _ s' ob H).
-    cbn in H. destruct (find_pend id n (s_pend s)); [|discriminate]. destruct (unready p); inversion H; subst; exact HU.
-  - split; [|reflexivity]. split; [exact HS'|]. rewrite (step_db cfg s _ s' ob H).
-    cbn in H. destruct (find_pend id n (s_pend s)); [|discriminate]. destruct (pd_sub p); try discriminate.
-    destruct (pd_ready p); inversion H; subst; exact HU.
-  - split; [|reflexivity]. split; [exact HS'|]. rewrite (step_db cfg s _ s' ob H).
-    cbn in H. destruct (find_pend id n (s_pend s)); [|discriminate]. destruct (pd_sub p); try discriminate.
-    destruct (pd_ready p); inversion H; subst; exact HU.
-  - split; [|reflexivity]. cbn in H. inversion H; subst. split; [exact HS'|exact HU].
+      * split; [exact HS'|]. eapply exec_cmds_uniq; eassumption.
+      * apply c09_exec_ok; assumption.
+    + split; [split; [exact HS'|rewrite Hdb; exact HU]|]. apply c09_exec_same; exact HU.
+  - destruct (other_steps_db cfg s _ s' ob H I) as [Hdb ->]. split; [split; [exact HS'|rewrite Hdb; exact HU]|reflexivity].
+  - destruct (other_steps_db cfg s _ s' ob H I) as [Hdb ->]. split; [split; [exact HS'|rewrite Hdb; exact HU]|reflexivity].
+  - destruct (other_steps_db cfg s _ s' ob H I) as [Hdb ->]. split; [split; [exact HS'|rewrite Hdb; exact HU]|reflexivity].
+  - destruct (other_steps_db cfg s _ s' ob H I) as [Hdb ->]. split; [split; [exact HS'|rewrite Hdb; exact HU]|reflexivity].
 Qed.
 
-Theorem C09_trace : forall cfg sch, C09_mon (events cfg sch) = [].
+(* requests as the front ends let them through (validated requests): see Discipline.req_wf *)
+Definition sch_wf (sch : list directive) : Prop := Forall dir_wf sch.
+
+Theorem C09_trace : forall cfg sch, sch_wf sch -> C09_mon (events cfg sch) = [].
 Proof.
-  intros cfg sch. unfold C09_mon. apply mon_sound with (Inv := Inv09).
-  - intros s d s' ob HI Hs. eapply c09_step; eassumption.
+  intros cfg sch Hw. unfold C09_mon. apply mon_sound with (Inv := Inv09) (dir_ok := dir_wf).
+  - intros s d s' ob HI Hd Hs. eapply c09_step; eassumption.
   - apply Inv09_init.
+  - exact Hw.
 Qed.
 
 (* ---------- store-level facts for arbitrary arguments ---------- *)
